@@ -363,7 +363,7 @@ func cmdCensus(args []string) int {
 				continue
 			}
 			pk, _ := shortOf(owner.Path())
-			key := pk + "." + nt.Obj().Name() + "." + fa.Field.Name()
+			key := pk + "." + nt.Obj().Name() + "." + fdisp(fa.Field)
 			if li == nil {
 				li = Locks(fn)
 			}
